@@ -185,6 +185,41 @@ fn check_outline(p: [Point; 3]) -> Result<usize, String> {
     Ok(got.len())
 }
 
+/// fill-only styled triangle (stroke width 0, any alignment, stroke colour present or not):
+/// pixels() and draw() are exactly points() in the fill colour
+fn check_fill(p: [Point; 3]) -> Result<usize, String> {
+    use embedded_graphics::primitives::{PrimitiveStyleBuilder, StrokeAlignment};
+    let t = Triangle::new(p[0], p[1], p[2]);
+    let want: Vec<Point> = t.points().collect();
+    let colinear = cross(v(p[0]), v(p[1]), v(p[2])) == 0;
+    for al in [StrokeAlignment::Inside, StrokeAlignment::Center, StrokeAlignment::Outside] {
+        for with_stroke_colour in [false, true] {
+            let mut b = PrimitiveStyleBuilder::new().fill_color(BinaryColor::On).stroke_width(0).stroke_alignment(al);
+            if with_stroke_colour {
+                b = b.stroke_color(BinaryColor::Off);
+            }
+            let st = t.into_styled(b.build());
+            let got: Vec<Point> = st.pixels().map(|Pixel(q, _)| q).collect();
+            let mut tg: IterTarget<BinaryColor> = IterTarget::new(t.bounding_box().offset(3));
+            st.draw(&mut tg).unwrap();
+            let dset: BTreeSet<(i32, i32)> = tg.map.keys().copied().collect();
+            let wset: BTreeSet<(i32, i32)> = want.iter().map(|q| (q.y, q.x)).collect();
+            if got != want || dset != wset {
+                let class = if colinear && al == StrokeAlignment::Inside && got.is_empty() && dset.is_empty() {
+                    " class=K19_inside_fill_colinear"
+                } else {
+                    ""
+                };
+                return Err(format!(
+                    "filled triangle (stroke width 0, alignment {:?}, stroke colour {}) draws {} pixels, points() has {}{}",
+                    al, with_stroke_colour, got.len(), want.len(), class
+                ));
+            }
+        }
+    }
+    Ok(want.len())
+}
+
 fn check_pair(a: Point, b: Point, c: Point, d: Point) -> Result<usize, String> {
     let t1 = Triangle::new(a, b, c);
     let t2 = Triangle::new(b, d, a);
@@ -296,6 +331,7 @@ pub fn search(suite: &str, a: &[&str]) -> Option<String> {
     };
     Some(match suite {
         "p_tri" => fmt(check_triangle([pt(a[0], a[1]), pt(a[2], a[3]), pt(a[4], a[5])])),
+        "p_tri_fill" => fmt(check_fill([pt(a[0], a[1]), pt(a[2], a[3]), pt(a[4], a[5])])),
         "p_tri_outline" => fmt(check_outline([pt(a[0], a[1]), pt(a[2], a[3]), pt(a[4], a[5])])),
         "p_tri_pair" => fmt(check_pair(pt(a[0], a[1]), pt(a[2], a[3]), pt(a[4], a[5]), pt(a[6], a[7]))),
         "p_poly" => fmt(check_polyline(pt(a[0], a[1]), &verts(&a[2..]))),
